@@ -325,6 +325,8 @@ def generate(seed, index):
         "rescan": rng.random() < 0.6,
         "interleave": rng.random() < 0.85,
         "observe": rng.random() < 0.6,
+        "abort": rng.random() < 0.35,
+        "lifetimes": rng.random() < 0.4,
     }
     nclients = rng.randint(1, 6)
     n_evals = rng.randint(5, 40)
@@ -332,7 +334,8 @@ def generate(seed, index):
     setup = []
     faults = {"F1_readdir_order": 0, "F3_history_order": 0, "F4_reapply_same": 0,
               "F5_reapply_other": 0, "F6_arg_permutation": 0, "F7_rescan": 0,
-              "F9_client_interleave": 0, "F11_observation_between_evaluations": 0}
+              "F9_client_interleave": 0, "F11_observation_between_evaluations": 0,
+              "F12_abort_planned": 0, "F13_object_dropped": 0}
     # evaluables: one per cfg, created in the setup phase under a chosen listing order
     evs = {}  # ev id -> cfg id
     ev_of_cfg = {}
@@ -391,6 +394,69 @@ def generate(seed, index):
         own = []
         own_evs = {}
         while budget > 0 and spec_ids:
+            if swarm["lifetimes"] and rng.random() < 0.12:
+                # F13: a short-lived evaluable (function-scoped fixture): scan, evaluate, let go,
+                # scan something else (which may now live at the same address), evaluate the
+                # same rule object again
+                oid = W.pick(rng, own) if own and rng.random() < 0.5 else None
+                if oid is None:
+                    oid = new_rule_obj(W.pick(rng, spec_ids), c)
+                    own.append(oid)
+                target = specs[robjs[oid]]["target"]
+                same_tree = [k for k in cfg_ids if cfgs[k]["tree"] == cfgs[target]["tree"]]
+                others = [k for k in same_tree if k != target]
+                second = W.pick(rng, others) if others and rng.random() < 0.8 else target
+                for cid in (target, second):
+                    tree = trees[cfgs[cid]["tree"]]
+                    sop = {"op": "scan", "ev": f"E{len(evs)}", "cfg": cid}
+                    order = _listing_order(rng, tree, swarm["shuffle_listing"])
+                    if order:
+                        sop["order"] = order
+                    evs[sop["ev"]] = cid
+                    client_ops[c].append(sop)
+                    for _ in range(rng.randint(1, 2)):
+                        client_ops[c].append({"op": "apply", "obj": oid, "ev": sop["ev"],
+                                              "key": f"{robjs[oid]}|{cid}"})
+                        used_pairs.append((robjs[oid], cid))
+                        budget -= 1
+                    client_ops[c].append({"op": "drop", "ev": sop["ev"]})
+                    faults["F13_object_dropped"] += 1
+                if rng.random() < 0.5:
+                    client_ops[c].append({"op": "drop", "obj": oid})
+                    own.remove(oid)
+                    faults["F13_object_dropped"] += 1
+                continue
+            if swarm["abort"] and rng.random() < 0.1:
+                # F12: an evaluation (or a scan) is cancelled at a chosen point inside the
+                # library; the cancelled rule object is not judged afterwards, everything else
+                # (the evaluable, other rule objects, later scans) is
+                if rng.random() < 0.75:
+                    oid = new_rule_obj(W.pick(rng, spec_ids), c)
+                    cid = specs[robjs[oid]]["target"]
+                    ev = W.pick(rng, [ev_of_cfg[cid][0]] + own_evs.get(cid, []))
+                    k = int(round(10 ** (rng.random() * 3.6)))
+                    client_ops[c].append({"op": "apply", "obj": oid, "ev": ev, "abort_at": k,
+                                          "key": f"{robjs[oid]}|{cid}"})
+                    used_pairs.append((robjs[oid], cid))
+                else:
+                    cid = W.pick(rng, cfg_ids)
+                    tree = trees[cfgs[cid]["tree"]]
+                    k = int(round(10 ** (rng.random() * 4.3)))
+                    sop = {"op": "scan", "ev": f"E{len(evs)}", "cfg": cid, "abort_at": k}
+                    order = _listing_order(rng, tree, swarm["shuffle_listing"])
+                    if order:
+                        sop["order"] = order
+                    evs[sop["ev"]] = cid
+                    client_ops[c].append(sop)
+                    # the request is made again right away: it must give the usual result
+                    sop2 = {"op": "scan", "ev": f"E{len(evs)}", "cfg": cid}
+                    evs[sop2["ev"]] = cid
+                    client_ops[c].append(sop2)
+                    own_evs.setdefault(cid, []).append(sop2["ev"])
+                    ev_of_cfg[cid].append(sop2["ev"])
+                faults["F12_abort_planned"] += 1
+                budget -= 1
+                continue
             r = rng.random()
             if own and r < 0.35:
                 oid = W.pick(rng, own)
